@@ -257,6 +257,17 @@ class Explorer:
             bad.append("a refused SELECT still carried the stored value: %s" % ", ".join(o["leak"]))
         if not bad:
             return None
+        if tr is not None and pre is not None and tr[0] == "GRANT" and not o["odd"] and not o["leak"]:
+            # Statement silent: "granting ... a privilege changes what that user may do on exactly that database" does not say
+            # whether GRANT READ|WRITE adds to or replaces the privilege held on that database. This server (like InfluxDB 1.x:
+            # SetPrivilege) replaces it. Both readings are accepted as long as catalogue and behaviour agree with one of them on
+            # every transport and no other database changes; everything else (REVOKE clears exactly the named bits, scope) is strict.
+            alt = list(pre)
+            alt[tr[2]] = BITS[tr[1]]
+            alt = tuple(alt)
+            if lb == alt and all(b == alt for b in o["abil"].values()):
+                self.count("privsm_lenient_grant_replaces_held_privilege")
+                return None
         text = "expected %s (%s); %s" % (self.showbits(expected), self.showabil(expected), "; ".join(bad))
         kind = "privilege_machine_mismatch"
         same_everywhere = all(b == ab for b in o["abil"].values())
